@@ -95,15 +95,33 @@ class Waiting(process_states.Waiting):
         for awaitable in self._awaiting:
             awaitable.remove_done_callback(self._awaitable_done)
 
+    # Outcome of the awaitables, kept because they can complete while the wait is interrupted (e.g. to pause), when the
+    # future that ``execute`` was waiting on has already been used to deliver the interruption
+    _failure: Optional[Exception] = None
+    _all_done: bool = False
+
+    async def execute(self) -> process_states.State:  # type: ignore
+        if not self._waiting_future.done():
+            if self._failure is not None:
+                self._waiting_future.set_exception(self._failure)
+            elif self._all_done:
+                self._waiting_future.set_result(lang.NULL)
+        return await super().execute()
+
     def _awaitable_done(self, awaitable: asyncio.Future) -> None:
         key = self._awaiting.pop(awaitable)
         try:
             self.process.ctx[key] = awaitable.result()  # type: ignore
         except Exception as exception:
-            self._waiting_future.set_exception(exception)
+            if self._failure is None:
+                self._failure = exception
+            if not self._waiting_future.done():
+                self._waiting_future.set_exception(exception)
         else:
             if not self._awaiting:
-                self._waiting_future.set_result(lang.NULL)
+                self._all_done = True
+                if self._failure is None and not self._waiting_future.done():
+                    self._waiting_future.set_result(lang.NULL)
 
 
 class WorkChain(mixins.ContextMixin, processes.Process):
